@@ -288,6 +288,20 @@ func DeclAtoms() []Atom {
 	for _, c := range consts {
 		add("const/"+c.n, "const", false, c.needs, &Decl{Const: &Const{Name: "K", Type: c.t, Value: c.v}})
 	}
+	// a typedef of the main file with the name of a typedef of the include and another target, both used
+	for _, o := range []struct {
+		n     string
+		first bool
+	}{{"included-first", true}, {"local-first", false}} {
+		loc := &Decl{Typedef: &Typedef{Name: "id", Type: T("i32")}}
+		a, b := T("base.id"), T("id")
+		if !o.first {
+			a, b = b, a
+		}
+		add("struct/typedef-namesake/"+o.n, "struct", true, []*Decl{loc}, &Decl{Struct: &Struct{Kind: "struct", Name: "Holder", Fields: []*Field{
+			{ID: 1, Name: "a", Req: "required", Type: a}, {ID: 2, Name: "b", Req: "default", Type: b},
+			{ID: 3, Name: "la", Req: "default", Type: List(a)}, {ID: 4, Name: "mb", Req: "optional", Type: Map(b, T("string"))}}}})
+	}
 	// include paths: the included file is known by its base name whatever the path looks like
 	for _, ip := range []struct{ n, main, file, text string }{
 		{"dot-slash", "main.frugal", "base.frugal", "./base.frugal"},
@@ -527,7 +541,9 @@ func DeclAtoms() []Atom {
 // IdentAtoms puts awkward identifier shapes into every identifier position.
 func IdentAtoms() []Atom {
 	idents := []string{"a", "_x", "a_b", "A1", "stringList", "i32Thing", "boolean", "bytes", "doubleX", "binaryBlob", "i64s", "i16x",
-		"structure", "voidness", "onewayX", "includer", "mapper", "listing", "setter", "constant", "enumerate", "unionize", "scoped", "serviceX", "throwsX", "typedefs", "exceptional", "requiredX", "optionalX", "prefixed", "namespaceX", "extendsX", "trueish", "falsey"}
+		"structure", "voidness", "onewayX", "includer", "mapper", "listing", "setter", "constant", "enumerate", "unionize", "scoped", "serviceX", "throwsX", "typedefs", "exceptional", "requiredX", "optionalX", "prefixed", "namespaceX", "extendsX", "trueish", "falsey",
+		// names the Go generator treats specially (constructor prefix, args / result suffixes)
+		"Newsletter", "newMessage", "news_kind", "PutArgs", "GetResult"}
 	var out []Atom
 	for _, id := range idents {
 		id := id
